@@ -463,6 +463,8 @@ class Engine(CoreMixin, ExprMixin, CallMixin, StmtMixin, BuiltinMixin):
             btext = "\n".join(body)
         if "MEM-EX" in (getattr(contract, "lemmas", []) or []):
             parts.append(smt.spec_module("mod_mem"))
+        if "JSON-INTRO" in (getattr(contract, "lemmas", []) or []):
+            parts.append(smt.spec_module("mod_json_intro"))
         if "IS-MEM-NTH" in (getattr(contract, "lemmas", []) or []):
             parts.append(smt.spec_module("mod_ismem_nth"))
         if "DICT-ITEM" in (getattr(contract, "lemmas", []) or []):
